@@ -741,4 +741,6 @@ def check(ctx):
         m2_stft(ctx, al, "StftC09_quick.cfg")
         m3_ola(ctx, al, 250, 30, 16)
         m3_stft(ctx, al, 300, 8, 24)
+    import c09_partials
+    c09_partials.check_partials(ctx, al)       # partial / decorator style: partials are values (StftPartial.tla)
     ctx.exhaustive = True
